@@ -15,7 +15,7 @@
 From Coq Require Import ZArith NArith List Bool Lia.
 From Tinode Require Import Base.Util Pure.Acs Sys.Topic Sys.TopicTac Sys.TopicFrame Sys.TopicNum Sys.TopicNumThm Sys.TopicInst
   Sys.TopicCoh Sys.TopicCohProofs Sys.TopicCohStep Sys.TopicCohRun Sys.TopicCohQuery Sys.TopicCohWit
-  Sys.TopicCohReject Sys.TopicCohAck Sys.TopicCohWit2.
+  Sys.TopicCohReject Sys.TopicCohAck Sys.TopicCohWit2 Sys.TopicCohKeys Sys.TopicCohBisim.
 Import ListNotations.
 Open Scope Z_scope.
 
@@ -55,6 +55,19 @@ Theorem c08_reload_invisible : forall h x0 f q,
   inv x0 -> inv_num x0 -> safe_run dr nr sm x0 h -> is_query q = true ->
   answer dr nr sm f (fst (run dr nr sm x0 h)) q = answer dr nr sm f (reload (fst (run dr nr sm x0 h))) q.
 Proof. exact (run_reload_invisible dr nr sm). Qed.
+
+(* RELOAD ANYWHERE: split any trigger-free history in two, h1 ++ h2.  Whether or not the cache is rebuilt
+   by the load path (same sessions attached) between h1 and h2, the rest of the history produces exactly
+   the same replies - every frame to every session, queries and acknowledgements alike, under the fault
+   plans h2 carries - and ends with the same store.  (The proof is a bisimulation: every handler computes
+   the same store, replies and session list from two caches that agree on the stored fields; the
+   invariant re-establishes the agreement after each step.) *)
+Theorem c08_reload_anywhere : forall h1 h2 x0,
+  inv x0 -> inv_num x0 -> keys_st x0 -> safe_run dr nr sm x0 h1 ->
+  safe_run dr nr sm (fst (run dr nr sm x0 h1)) h2 ->
+  snd (run dr nr sm (fst (run dr nr sm x0 h1)) h2) = snd (run dr nr sm (reload (fst (run dr nr sm x0 h1))) h2) /\
+  st (fst (run dr nr sm (fst (run dr nr sm x0 h1)) h2)) = st (fst (run dr nr sm (reload (fst (run dr nr sm x0 h1))) h2)).
+Proof. exact (reload_anywhere dr nr sm). Qed.
 
 (* two caches that agree on the stored fields (and have the same sessions) answer every query alike *)
 Theorem c08_query_agree : forall f s c d n q,
@@ -147,6 +160,7 @@ Print Assumptions c08_inv_coherent.
 Print Assumptions c08_step_coherent_partial.
 Print Assumptions c08_run_coherent_partial.
 Print Assumptions c08_reload_invisible.
+Print Assumptions c08_reload_anywhere.
 Print Assumptions c08_query_agree.
 Print Assumptions c08_unload_invisible.
 Print Assumptions c08_ack_implies_stored_partial.
@@ -168,6 +182,10 @@ Print Assumptions c08_fault_owner_transfer_needed.
 (* non-vacuity: a trigger-free history with accepted mutations (two attach, a publish by a reader,
    a received note, a soft delete, a permission change by the owner) satisfies safe_run, ends loaded
    and coherent with lastID = 1 *)
+(* the hypotheses of c08_reload_anywhere hold for the empty topic of the witnesses *)
+Example c08_ex_start : inv (mkState (wit_store 47 47) None 0) /\ inv_num (mkState (wit_store 47 47) None 0) /\ keys_st (mkState (wit_store 47 47) None 0).
+Proof. destruct (wit_inv0 47 47 wit_wf_47_47) as [A B]. split; [exact A|]. split; [exact B|exact I]. Qed.
+
 Example c08_ex_safe :
   let h := [(NoFault, OSub 1 [] false); (NoFault, OSub 2 [] false); (NoFault, OPub 1 7 false);
             (NoFault, ONote 2 K_recv 1); (NoFault, ODelMsg 2 [(1, 0)] false); (NoFault, OSetSub 1 2 [74; 82; 87]%N)] in
